@@ -9,7 +9,8 @@ check('C09',
       design_ref='DESIGN.md §3 C09',
       text='Every day of 1970..2099 (47482) is crossed with seconds of day {0,1,59,3599,3600,43199,86399} and milliseconds {0,1,499,500,999}; each instant is '
            'put into the five date/time field classes exactly as the codec does (value -> print(char*) -> from-text constructor -> value -> print) and the texts '
-           'and values are compared byte for byte / tick for tick with the harness\'s own civil-from-days arithmetic: UTCTimestamp "YYYYMMDD-HH:MM:SS.sss" '
+           'are compared byte for byte with the harness\'s own civil-from-days arithmetic; the parsed value must be exactly the instant for UTCTimestamp, keep the time of day '
+           '(modulo one day) for UTCTimeOnly, lie within the day for the date-only forms and within the month for "YYYYMM": UTCTimestamp "YYYYMMDD-HH:MM:SS.sss" '
            '(and the 17 character form), UTCTimeOnly "HH:MM:SS.sss" (and "HH:MM:SS"), UTCDateOnly and LocalMktDate "YYYYMMDD", MonthYear "YYYYMM" and '
            '"YYYYMMDD"; the tm constructors, the f8String constructors and print(ostream) are checked against the same values. The thorough tier adds all '
            '86400 seconds of the first and last day of every month (3120 days) x the 5 millisecond values. The log renderers GetTimeAsStringMS (gm/local, '
@@ -32,8 +33,8 @@ check('C09',
                   quick=dict(args=['mode=fields'], deadline=60),
                   thorough=dict(args=['mode=fields', 'allsec=1'], deadline=840)),
              dict(name='fields-san', harness='c09_datetime', variant='san',
-                  quick=dict(args=['mode=fields'], deadline=90),
-                  thorough=dict(args=['mode=fields'], deadline=300)),
+                  quick=dict(args=['mode=fields'], deadline=90, shards=8),
+                  thorough=dict(args=['mode=fields'], deadline=300, shards=8)),
              dict(name='log', harness='c09_datetime', variant='san',
-                  quick=dict(args=['mode=log'], deadline=60),
-                  thorough=dict(args=['mode=log'], deadline=120))])
+                  quick=dict(args=['mode=log'], deadline=60, shards=4),
+                  thorough=dict(args=['mode=log'], deadline=120, shards=4))])
